@@ -184,7 +184,10 @@ class Corr:
         else:
             # There are no checks here yet. There are so many possible scenarios, where this can go wrong.
             if normalize:
+                vector_l, vector_r = list(vector_l), list(vector_r)
                 for t in range(self.T):
+                    if vector_l[t] is None or vector_r[t] is None:
+                        continue
                     vector_l[t], vector_r[t] = vector_l[t] / np.sqrt((vector_l[t] @ vector_l[t])), vector_r[t] / np.sqrt(vector_r[t] @ vector_r[t])
 
             newcontent = [None if (_check_for_none(self, self.content[t]) or vector_l[t] is None or vector_r[t] is None) else np.asarray([vector_l[t].T @ self.content[t] @ vector_r[t]]) for t in range(self.T)]
@@ -1054,6 +1057,7 @@ class Corr:
     def __repr__(self, print_range=None):
         if print_range is None:
             print_range = [0, None]
+        print_range = list(print_range)
 
         content_string = ""
         content_string += "Corr T=" + str(self.T) + " N=" + str(self.N) + "\n"  # +" filled with"+ str(type(self.content[0][0])) there should be a good solution here
